@@ -45,15 +45,19 @@ def build(case):
         (top if d['position'] == 'top' else nested).append(f)
     top.append(field('inner', 3, Q('Inner')))
     msgs = [message('Inner', nested), message('Req', top), message('Resp', [field('ok', 1, 'bool')])]
-    meths = []
+    by_svc = {}
+    svc_of = case.get('services', {})
+    driven = {m: [n for n, _ in fs] for m, fs in case['drive']}
     for mname, kind in case['methods'].items():
-        meths.append(method(mname, Q('Req'), Q('Resp'), cs=kind in ('client-streaming', 'bidi'),
-                            ss=kind in ('server-streaming', 'bidi'),
-                            http=None if kind in ('client-streaming', 'bidi') else ('post', f'/v1/{mname.lower()}', '*')))
-    f = file('acme/auto/v1/auto.proto', P, messages=msgs, services=[service('Auto', meths)])
+        # driven methods also offer their fields as flattened keyword arguments
+        sigs = [','.join(['name', 'payload'] + driven[mname])] if mname in driven else ()
+        by_svc.setdefault(svc_of.get(mname, 'Auto'), []).append(
+            method(mname, Q('Req'), Q('Resp'), cs=kind in ('client-streaming', 'bidi'), ss=kind in ('server-streaming', 'bidi'), sigs=sigs,
+                   http=None if kind in ('client-streaming', 'bidi') else ('post', f'/v1/{mname.lower()}', '*')))
+    f = file('acme/auto/v1/auto.proto', P, messages=msgs, services=[service(sn, ms) for sn, ms in by_svc.items()])
     y = 'type: google.api.Service\nconfig_version: 3\nname: auto.example.com\npublishing:\n  method_settings:\n'
     for sel, fields_ in case['settings']:
-        full = sel[4:] if sel.startswith('RAW:') else f'{P}.Auto.{sel}'
+        full = sel[4:] if sel.startswith('RAW:') else f'{P}.{svc_of.get(sel, "Auto")}.{sel}'
         y += f'  - selector: {full}\n    auto_populated_fields:\n' + ''.join(f'    - {x}\n' for x in fields_)
     req = request([f], 'transport=grpc+rest,autogen-snippets=false,service-yaml=@svc.yaml@')
     desc.gate(req)
@@ -92,6 +96,13 @@ def cases():
     out.append(dict(id='two-methods', fields=[('request_id', GOOD), ('other_id', GOOD_OPT)], methods={'Do': 'unary', 'Undo': 'unary', 'Plain': 'unary'},
                     settings=[('Do', ['request_id']), ('Undo', ['other_id'])], accept=True,
                     drive=[('Do', [('request_id', GOOD)]), ('Undo', [('other_id', GOOD_OPT)]), ('Plain', [])]))
+    # two services, each with its own auto-populated field; the service listed *later* in the settings comes first in the file
+    out.append(dict(id='two-services', fields=[('request_id', GOOD), ('other_id', GOOD_OPT)], methods={'Redo': 'unary', 'Do': 'unary'},
+                    services={'Redo': 'Second'}, settings=[('Do', ['request_id']), ('Redo', ['other_id'])], accept=True,
+                    drive=[('Do', [('request_id', GOOD)]), ('Redo', [('other_id', GOOD_OPT)])]))
+    out.append(dict(id='two-services/one-plain', fields=[('request_id', GOOD)], methods={'Do': 'unary', 'Redo': 'unary'},
+                    services={'Do': 'Second'}, settings=[('Do', ['request_id'])], accept=True,
+                    drive=[('Do', [('request_id', GOOD)]), ('Redo', [])]))
     out.append(dict(id='no-fields-listed', fields=[('request_id', GOOD)], methods={'Do': 'server-streaming'}, settings=[('Do', [])],
                     accept=True, drive=[]))
     out.append(dict(id='reserved-name/format', fields=[('format', GOOD)], methods={'Do': 'unary'}, settings=[('Do', ['format'])],
@@ -105,7 +116,7 @@ def make_job(case):
     req, of = build(case)
     return dict(id=case['id'], req=req.SerializeToString(), opt_files=of, probe='mc.probes.autopop' if case['drive'] else None,
                 probe_args=dict(package=names.import_package(P), proto_package=P,
-                                drive=[[m, [[n, d['optional']] for n, d in fs]] for m, fs in case['drive']],
+                                drive=[[m, [[n, d['optional']] for n, d in fs], case.get('services', {}).get(m, 'Auto')] for m, fs in case['drive']],
                                 all_auto=[n for n, d in case['fields']]),
                 _case=case)
 
